@@ -784,6 +784,12 @@ func ecReplay(e *Env) error {
 	if inner, ok := doc["replay"].(map[string]any); ok {
 		doc = inner
 	}
+	if inner, ok := doc["case"].(map[string]any); ok { // the file as written by ../check
+		doc = inner
+	}
+	if doc["kind"] == "stat-invisible-history" {
+		return c15statReplay(e, doc)
+	}
 	raw, _ := doc["ops"].([]any)
 	var ops []ecOp
 	for _, x := range raw {
@@ -805,7 +811,7 @@ func ecReplay(e *Env) error {
 
 func runC15(e *Env) error {
 	r := e.Rep
-	r.Rule = "(0) 40-step histories of file writes / removals / renders over FileSystemLoader with three search paths, two registered loaders and a ChainLoader: a long-lived engine (cache off; cache + auto-reload) renders what an engine created now renders; operation histories on a fresh twig.Engine with 2–4 in-memory loaders (timestamp-aware and not) and 3 names; every source is a " +
+	r.Rule = "(0) 40-step histories of file writes / removals / renders over FileSystemLoader with three search paths, two registered loaders and a ChainLoader: a long-lived engine (cache off; cache + auto-reload) renders what an engine created now renders; (0b) histories over FileSystemLoader / CompiledLoader (bare and inside a ChainLoader) whose writes keep or change modification time (newer, same, older, sub-second), length and inode independently, removals and re-creations with identical metadata: loader.Load, a cache-less engine and an engine created now over the long-lived loader give the content as written, caching engines what the six sentences say; operation histories on a fresh twig.Engine with 2–4 in-memory loaders (timestamp-aware and not) and 3 names; every source is a " +
 		"version tag; (a) pinned regression histories, (b) every word of length ≤ N over a 10-letter alphabet acting on one name, from 3 loader " +
 		"setups, (c) random histories of ≤ 60 ops over 11 operation kinds; after every op: served tag / error class, Load and GetModifiedTime " +
 		"counters per loader×name, cache keys and flags are compared with EngineCache.step, served with Spec.expected, and the six sentences are " +
@@ -815,6 +821,7 @@ func runC15(e *Env) error {
 	}
 	// (0) the library's own loaders over real files
 	c15OwnLoaders(e)
+	c15StatInvisible(e)
 	c15Compiled(e)
 	// (a) regression corpus
 	for _, c := range ecCorpus() {
